@@ -346,8 +346,8 @@ def _blob(rng, n):
 
 def gen_device(rng, sizes=None, images=False, big=None):
     ids = [0] + rng.sample(range(1, 256), rng.randrange(1, 4))
-    if rng.random() < 0.25:
-        ids[-1] = 255
+    if rng.random() < 0.25 and 255 not in ids:
+        ids[-1] = 255          # (ids stay distinct: a device holds one area per FRU id)
     rng.shuffle(ids)
     frus = []
     for i in ids:
